@@ -417,7 +417,7 @@ Proof.
   - destruct (Hitems eq_refl eq_refl) as [l0 Hl0]; discriminate.
 Qed.
 
-(* whether a decoder of an admitted pair succeeds does not depend on the value it overwrites *)
+(* whether a decoder of an accepted pair succeeds does not depend on the value it overwrites *)
 Lemma rdec0_indep c cur cur' w v :
   rdec0 rec c cur w = Ok v -> exists v', rdec0 rec c cur' w = Ok v'.
 Proof.
@@ -520,7 +520,7 @@ End Fields.
 
 (* ------------------------------------------------------------------ from the table condition to fields *)
 (* Generic in the level: [enc] / [dec] are the encoder and decoder calls of the level, [pok] the pairs
-   the table condition of the level admits, [Hpair] their soundness.  Instantiated one level down for
+   the table condition of the level accepts, [Hpair] their soundness.  Instantiated one level down for
    the leaf structs (wenc0 / rdec0 / pair_ok0) and then for the 14 struct kinds (wenc / rdec / pair_ok). *)
 Section Struct.
 Variable E : gob_env.
